@@ -1093,7 +1093,11 @@ class ValueMap(Value):
         return self.value == other.value
 
     def __lt__(self, other):
-        return str(self) < str(other)
+        mine, theirs = str(self), str(other)
+        if mine != theirs or not isinstance(other, ValueMap):
+            return mine < theirs
+        # same text, e.g. objects inside that differ in hidden members only
+        return sorted(self.value.items()) < sorted(other.value.items())
 
     def __repr__(self):
         return "<<<" + padBrackets(
@@ -1448,7 +1452,11 @@ class ValueSet(Value):
         return self.value == other.value
 
     def __lt__(self, other):
-        return str(self) < str(other)
+        mine, theirs = str(self), str(other)
+        if mine != theirs or not isinstance(other, ValueSet):
+            return mine < theirs
+        # same text, e.g. objects inside that differ in hidden members only
+        return self.getSortedItems() < other.getSortedItems()
 
     def __repr__(self):
         return "<<" + padBrackets(
